@@ -24,7 +24,7 @@ structure RdSt where
   cur : Cur := Cur.init []
   script : List Resp := []
   /-- the source's credit (Spec/Cursor `Credit`): when a request must be served in full -/
-  credit : Credit := ⟨0, 0, false⟩
+  credit : Credit := { K := 0, credit := 0, all := false }
 
 def errOptStr : Option RErr → String
   | none => "nil"
@@ -126,7 +126,8 @@ def rdStep (st : RdSt) (args : List String) (impl : String) : RdSt × String × 
     match parseStream hex, parseScript sc with
     | some s, some sc =>
       ({ rd := some (Rd.newDefault ⟨s, sc⟩), cur := Cur.init s, script := sc,
-         credit := Credit.init (Steady Facts.maxConsecutiveEmptyReads sc s.length 0) sc },
+         credit := Credit.init (Steady Facts.maxConsecutiveEmptyReads sc s.length 0 ||
+                                SteadyChunks Facts.defaultBufSize sc s.length) sc },
        "ok", if impl == "ok" then "ok" else "bad:protocol")
     | _, _ => ({}, "bad-op", "na")
   | ["rd", "new", "bytes", hex, cap] =>
